@@ -1,6 +1,8 @@
 import DEvo.Mut.Env
 import DEvo.Run.Monitors
 import DEvo.Generated.Skeletons
+import DEvo.Generated.Tables
+import DEvo.Sig.Diff
 
 /-! # C12 — upgrades that cannot reach the current models never touch the database
 
@@ -139,5 +141,55 @@ theorem C12_reject_prefix (e : Env) (fl : Flags) (c : Ctx) (mu : Mutation) (rest
     (p : ProjectSig) (err : SimErr) (h : simulate e fl c mu p = .error err) :
     simulateAll e fl c (mu :: rest) p = .error err := by
   simp [simulateAll, h, bind, Except.bind]
+
+/-! ## the residual check looks in the right direction -/
+
+/-- `Evolver.diff_evolutions()` returns `Diff(self.project_sig, self.target_project_sig)`: the
+simulated signature is the side whose models are walked (regenerated from the source on every run) -/
+theorem C12_source_diff_direction :
+    DEvo.Generated.diffEvolutionsArgs = ("self.project_sig", "self.target_project_sig") := by decide
+
+/-- **a model that the simulated signature still has and the current models do not** (the evolution
+lacks its `DeleteModel`) **makes the residual difference non-empty**, whatever else the evolution
+does — so the gate rejects -/
+theorem C12_residual_reports_leftover_model (e : Env) (sim target : ProjectSig) (a b : AppSig) (m : String)
+    (ha : a ∈ sim.apps) (hb : target.getApp a.id = some b) (hnm : (b.upgradeMethod == some "migrations") = false)
+    (hm : m ∈ deletedModelsOf a b) : (diffProject e sim target).isEmpty true = false := by
+  have hne : (diffApp e a b).isEmpty = false := by
+    unfold diffApp AppDiff.isEmpty
+    simp only [hnm]
+    cases hd : deletedModelsOf a b with
+    | nil => rw [hd] at hm; cases hm
+    | cons x t => simp
+  have hmem : (b.id, diffApp e a b) ∈ changedAppsOf e sim target := by
+    unfold changedAppsOf
+    rw [List.mem_filterMap]
+    exact ⟨a, ha, by simp [hb, hne]⟩
+  unfold diffProject ProjDiff.isEmpty
+  simp only [if_true]
+  cases hc : changedAppsOf e sim target with
+  | nil => rw [hc] at hmem; cases hmem
+  | cons x t => rfl
+
+def simLeft : ProjectSig :=
+  { apps := [⟨"a", "a", some "evolutions", none,
+      [{ name := "Book", table := "a_book", pkColumn := "\"id\"", fields := [⟨"id", "AutoField", [("primary_key", "true")], none⟩],
+         uniqueTogether := [], utApplied := true, indexTogether := [], indexes := [], constraints := [],
+         comment := "null", tablespace := "null" },
+       { name := "Author", table := "a_author", pkColumn := "\"id\"", fields := [⟨"id", "AutoField", [("primary_key", "true")], none⟩],
+         uniqueTogether := [], utApplied := true, indexTogether := [], indexes := [], constraints := [],
+         comment := "null", tablespace := "null" }]⟩] }
+
+def targetLeft : ProjectSig :=
+  { apps := [⟨"a", "a", some "evolutions", none,
+      [{ name := "Book", table := "a_book", pkColumn := "\"id\"", fields := [⟨"id", "AutoField", [("primary_key", "true")], none⟩],
+         uniqueTogether := [], utApplied := true, indexTogether := [], indexes := [], constraints := [],
+         comment := "null", tablespace := "null" }]⟩] }
+
+/-- the difference is one-directional: with the arguments swapped the leftover model `Author` is not
+seen (the mechanism of the seeded change C12-diff-evolutions-swapped) -/
+theorem C12_cex_swapped_direction :
+    (diffProject sqliteEnv simLeft targetLeft).isEmpty true = false ∧
+    (diffProject sqliteEnv targetLeft simLeft).isEmpty true = true := by decide
 
 end DEvo.Props.C12
